@@ -5,6 +5,12 @@
 (* while the lock is held) are replayed through PanLockset's actions.  The  *)
 (* trace is accepted iff every event is enabled in turn; the number of      *)
 (* distinct states TLC reaches = 1 + number of events consumed.             *)
+(* Events of the second channel (production build under the Go race         *)
+(* detector): "Unsync" = two accesses to the same interpreter-wide memory,  *)
+(* one a write, not ordered by any synchronisation; "ResultDiffers" = a     *)
+(* concurrent evaluation gave another result than the same program alone.   *)
+(* PanLockset has no step for either (every access is made under the lock), *)
+(* so a trace containing one is rejected at that event.                     *)
 (***************************************************************************)
 EXTENDS Integers, Sequences, TLC, Json
 Trace == ndJsonDeserialize("c20.ndjson")
@@ -25,6 +31,7 @@ TraceNext ==
        [] Ev.ev = "AutoUnlock"  -> WUnlock(p)
        [] Ev.ev = "AutoRead"    -> Read(p)
        [] Ev.ev = "AutoWrite"   -> Write(p)
+       [] Ev.ev \in {"Unsync", "ResultDiffers"} -> FALSE
        [] OTHER -> FALSE
 TraceSpec == TraceInit /\ [][TraceNext]_<<rc, writer, l>>
 ExclusionInv == Exclusion
